@@ -2107,7 +2107,7 @@ fn compress_normal(d: &mut CompressorOxide, callback: &mut CallbackOxide) -> boo
             // Try to find a match for the bytes at the current position.
             let dist_len = d.dict.find_match(
                 lookahead_pos,
-                d.dict.size,
+                cmp::min(d.dict.size, 1 << d.params.window_bits_max),
                 lookahead_size as u32,
                 cur_match_dist,
                 cur_match_len,
@@ -2250,7 +2250,7 @@ fn compress_fast(d: &mut CompressorOxide, callback: &mut CallbackOxide) -> bool 
             d.dict.b.hash[hash as usize] = lookahead_pos as u16;
 
             let mut cur_match_dist = (lookahead_pos - probe_pos) as u16;
-            if cur_match_dist as usize <= d.dict.size {
+            if cur_match_dist as usize <= cmp::min(d.dict.size, 1 << d.params.window_bits_max) {
                 probe_pos &= LZ_DICT_SIZE_MASK;
 
                 let trigram = d.dict.read_unaligned_u32(probe_pos) & 0xFF_FFFF;
